@@ -99,6 +99,18 @@ def check_obligations(pid: str, timeout=900):
     return res, out
 
 
+def coqchk(pid: str, timeout=1800):
+    """independent re-check of the compiled obligations with coqchk (thorough tier); returns (ok, axioms-text)"""
+    mods = ["Inferno.Props.%s.%s" % (pid, os.path.basename(f)[:-2]) for f in prop_files(pid)]
+    if not mods:
+        return True, ""
+    r = subprocess.run(["timeout", str(timeout), "coqchk", "-silent", "-o", "-Q", ".", "Inferno"] + mods, cwd=COQ,
+                       stdout=subprocess.PIPE, stderr=subprocess.STDOUT, text=True)
+    txt = r.stdout
+    i = txt.find("CONTEXT SUMMARY")
+    return r.returncode == 0, (txt[i:] if i >= 0 else txt[-3000:])[:6000]
+
+
 FORBIDDEN = re.compile(r"\b(Admitted|admit|Axiom|Axioms|Parameter|Parameters|Conjecture|Abort All|bypass_check|"
                        r"Unset Guard Checking|Unset Positivity Checking|Unset Universe Checking|Admit Obligations|"
                        r"native_compute)\b")
